@@ -84,10 +84,11 @@ Record cfg := mkCfg {
   f_group_empty : bool;   (* paths_from_group: a childless group Element is a group *)
   f_sax_line : bool;      (* line2pathd accepts the attribute dict of SaxDocument *)
   f_sax_order : bool;     (* SaxDocument multiplies parent.dot(child) *)
-  f_sax_keep : bool       (* SaxDocument.flatten_all_paths keeps the transformed path *)
+  f_sax_keep : bool;      (* SaxDocument.flatten_all_paths keeps the transformed path *)
+  f_arc_tf : bool         (* transform() of an Arc returns (the image arc) instead of raising *)
 }.
-Definition pinned : cfg := mkCfg false false false false false false false.
-Definition repaired : cfg := mkCfg true true true true true true true.
+Definition pinned : cfg := mkCfg false false false false false false false false.
+Definition repaired : cfg := mkCfg true true true true true true true true.
 
 Section SvgTree.
   Context {K : Type} (N : Num K).
@@ -476,11 +477,15 @@ Section SvgTree.
   Definition is_arc (s : seg) : bool := match s with SgArc _ _ _ _ _ _ _ => true | _ => false end.
 
   (* identity: the curve is returned as is; otherwise every segment is
-     transformed; the Arc branch raises TypeError (np.degrees of an object
-     array, numpy 2.x) -> None *)
-  Definition apply_tf (M : mat) (l : list seg) : option (list seg) :=
+     transformed.  Pinned: the Arc branch raises TypeError (np.degrees of an
+     object array, numpy 2.x) -> None.  Repaired (f_arc_tf): the Arc branch
+     returns the image arc; its end points are the images of the end points,
+     its radii / rotation / flags are property C10's business (the model leaves
+     them as they were; the comparisons look at the end points only, and the
+     harness checks the returned arc point-wise against the reference ellipse) *)
+  Definition apply_tf (c : cfg) (M : mat) (l : list seg) : option (list seg) :=
     if mat_eqb M mI then Some l
-    else if existsb is_arc l then None
+    else if existsb is_arc l && negb (f_arc_tf c) then None
     else Some (map (seg_affine M) l).
 
   (* ---------------------------------------------------------------- *)
@@ -593,7 +598,7 @@ Section SvgTree.
     let '(k, a, M) := o in
     match convert c RDocument k a with
     | None => None
-    | Some segs => match apply_tf M segs with
+    | Some segs => match apply_tf c M segs with
                    | None => None
                    | Some s' => Some (a_id a, s', M)
                    end
@@ -765,7 +770,7 @@ Section SvgTree.
     let '(i, s, m) := e in
     match m with
     | None => Some (i, s)
-    | Some M => match apply_tf M s with
+    | Some M => match apply_tf c M s with
                 | Some s' => Some (i, if f_sax_keep c then s' else s)   (* pinned: result discarded *)
                 | None => None
                 end
